@@ -139,3 +139,25 @@ PROPS['C02'] = dict(
     level_text='Unbounded theorems over the admission decision function: a commit implies every clause of the property (exact block/results binding, network, chain, next height, commit phase, every named member really signed this payload, real signed power >= floor(2T/3)+1), partial / forged / re-targeted / wrong-phase / wrong-target certificates never commit, padding bits are irrelevant, and a well-formed +2/3 certificate is accepted. The model is compared with the real HandlePeerBlock on certificates assembled from real BLS signatures every check.',
     level_note='Trusted: Coq kernel, hand-written mirror tied by correspondence, ideal BLS, sign-bytes injectivity (C19). The state-machine re-execution inside CommitCertificate is abstracted to a flag; the sync path is outside the property.',
 )
+
+PROPS['C03'] = dict(
+    props='props/C03.v',
+    models=['Trie', 'Paths'],
+    harness='c03',
+    args=dict(quick=['-chains', '3', '-blocks', '12'], escalated=['-chains', '6', '-blocks', '20'], thorough=['-chains', '30', '-blocks', '40']),
+    fingerprint_groups=['Exec', 'Trie'],
+    rule='per chain four real nodes (controller + FSM + store, real BLS certificates) over one genesis; every block is built by a rotating leader from a '
+         'mempool fed by the stateful generator (valid, invalid, conflicting, exactly-draining, duplicate transactions of 12 message kinds; some '
+         'blocks with 10+ transactions), and is then obtained on five paths: proposer, validate + commit with cached result, commit by replay, and '
+         'replay on a node that is restarted (database closed and re-opened, caches fresh) every third block and runs a discarded speculative '
+         'validation of a tampered proposal first; GOMAXPROCS in {1, 2, 16}; all (block hash, state root, results hash) reports of a block must be '
+         'identical; non-trivial: blocks that include at least one transaction',
+    modelled='PROVED on the model: order- and schedule-independence of the tree commit (Trie.v: any permutation of the pending operations, any '
+             'interleaving of the 8 subtree workers). NOT a theorem about the code: that ApplyBlock and the controller paths are the same function of '
+             '(prefix, block) — this is tied by the five-path differential on the real node (Paths.v records that all paths must report the same header); '
+             'goroutine nondeterminism inside pebble or the indexer errgroup cannot be exhibited by a theorem.',
+    assumptions=['the FSM layer is tied by differential execution, not by proof (partial, DESIGN.md §6)'],
+    trusted_base=['model/Trie.v (see C08); model/Paths.v states only that all execution paths must agree'],
+    level_text='Theorems: the state root does not depend on the iteration order of the pending-operation map nor on the schedule of the 8 parallel subtree workers (unbounded, over the trie model tied to the real SMT by C08\'s correspondence). The execution-path clause (propose / validate / commit-cached / commit-replay / restart yield a bit-identical header) is decided by running all five paths on real nodes for generated chains and comparing headers: differential validation, labelled partial.',
+    level_note='Partial: for the state machine and controller the claim rests on the multi-path differential run, not on a proof; the proved part is the commit algorithm.',
+)
